@@ -10,10 +10,10 @@ open CalmVerif.Spec.LexSeg CalmVerif.Gen
 
 /-! ### ignored characters -/
 
-/-- D: `t_ignore` is exactly ES5 WhiteSpace plus U+2028 and U+2029 (the latter two are line terminators, see KF-06a) -/
+/-- D: `t_ignore` is exactly ES5 WhiteSpace (both inclusions, decided over the generated ignore string) -/
 theorem ignore_initial_eq :
-    (ignoreOf .initial).all (fun c => isWhiteSpace c || c == '\u2028' || c == '\u2029') = true ∧
-    ([0x09, 0x0B, 0x0C, 0x20, 0xA0, 0xFEFF] ++ zs ++ [0x2028, 0x2029]).all
+    (ignoreOf .initial).all (fun c => isWhiteSpace c) = true ∧
+    ([0x09, 0x0B, 0x0C, 0x20, 0xA0, 0xFEFF] ++ zs).all
       (fun n => (ignoreOf .initial).contains (Char.ofNat n)) = true := by
   constructor <;> decide
 
